@@ -101,8 +101,8 @@ PROPERTIES.update({k: dict(bounds="", outside="", assumptions=[]) for k in ["C03
 # ---- failed / nested sends (C14) -----------------------------------------------------------------
 for n in ["ser_fail_visit0", "ser_fail_visit1", "ser_fail_visit2", "ser_fail_visit3"]:
     H(n, ["C14"], features="k_rec", sym="later message's value symbolic; number of embedded endpoints visited before the serialisation error concrete (name)", bounds="unwind 8; value with sender, region, sender")
-for n in ["ser_nested_ok", "ser_nested_inner_fails"]:
-    H(n, ["C14"], features="k_rec", sym="none (structure): a send inside a Serialize impl between two attachments of the enclosing value; the inner send completes / fails", bounds="unwind 8; nesting depth 2")
+for n in ["ser_nested_ok", "ser_nested_inner_fails", "ser_nested_regions_ok", "ser_nested_regions_inner_fails"]:
+    H(n, ["C14", "C05"] if "regions" in n else ["C14"], features="k_rec", sym="none (structure): a send inside a Serialize impl between two attachments of the enclosing value; the inner send completes / fails", bounds="unwind 8; nesting depth 2")
 PROPERTIES.update({k: dict(bounds="", outside="", assumptions=[]) for k in ["C14"]})
 
 # ---- error paths and close-on-exec (C11) ---------------------------------------------------------
@@ -116,3 +116,68 @@ for n in ["hist_clone_then_drop_original", "hist_queue_then_drop", "hist_three_h
       bounds="unwind 8; <= 6 operations, <= 3 sender handles")
 for n in ["transit_queued_small", "transit_carrier_dropped_small", "transit_unpacked_small", "crash_after_0_nosurv", "crash_after_3_surv"]:
     HARNESSES[n]["props"].append("C03")
+
+
+# ================================================================================================
+# per-property text for the evidence files and MANIFEST.json
+_A_KQ = "queueing model kernel kani/src/kq.rs stands in for Linux (DESIGN §3): SOCK_SEQPACKET packet boundaries and FIFO order, atomic sends, SCM_RIGHTS in-flight references, EOF iff no sender reference is left, EPIPE to a dead peer (SIGPIPE not modelled), control-buffer truncation, poll(2) readiness from the requested events"
+_A_REC = "recording model kernel kani/src/krec.rs: transmissions are logged (descriptor, header word, source address, length, attached descriptors, first 40 payload bytes), nothing is delivered; a datagram is accepted iff the ENOBUFS variable says so"
+_A_INJ = "on the receiving side packets are injected with plain system calls in exactly the shape send_plan_* show the real sender emits (header = total length, user descriptors in order, dedicated channel last iff fragmented, follow-ups on it) — values read back from a heap-allocated enum (Vec<OsIpcChannel>) are never constants for CBMC's symbolic executor, so the crate's own send is not used to produce attachments there"
+PROPERTIES = {
+    "C01": dict(
+        bounds="send side (send_plan_*): reported SO_SNDBUF in [4096, 2^24], length in [0, 2^26], <= 10 transmission attempts, no ENOBUFS; receive side + composition (rt_bytes_*, ipc_val_*): SO_SNDBUF 64, concrete lengths {0,1,24,25,56,57,89} (thorough adds 23,55,87,88), contents symbolic; 8 value types; M-queries: all 64-bit sizes, any number of fragments (inductive step)",
+        outside="more than 10 attempts except through the M-query induction (premise: the loop skeleton used there is the one send_plan_* check against the real loop); receive-side reassembly at symbolic sizes (covered by the window arithmetic M-queries and concrete-size round trips only); String/map values; memfd build, in-process / macOS / Windows transports; real socket-buffer back-pressure",
+        assumptions=[_A_REC, _A_KQ]),
+    "C02": dict(
+        bounds="one-enqueue invariant from send_plan_* (every send puts exactly one packet, its first successful one, on the channel's own socket; everything else goes to a socket pair created inside that call); two messages from two handles in sequence (rt_two_*: lengths 1/57, 57/24, 25/25)",
+        outside="real thread / process interleavings (Kani is sequential): covered only by the stated reduction argument — the shared queue is touched by one atomic enqueue per message; receiver sets; other transports",
+        assumptions=[_A_REC, _A_KQ, "reduction argument (DESIGN §5 C02) is stated, not machine-checked"]),
+    "C03": dict(
+        bounds="4 concrete histories of clone / drop / send on <= 3 sender handles observed by try_recv after every step; handles in transit inside queued messages (transit_*); dying senders with and without a surviving handle (crash_*); message-before-disconnection order (modes_try_recv_sequence)",
+        outside="symbolic histories (3 symbolic steps ran out of memory), > 6 operations, > 1 carrier channel, a blocked recv woken by a concurrent last drop (threads), other transports",
+        assumptions=[_A_KQ, _A_INJ]),
+    "C04": dict(
+        bounds="sending side: descriptor list = user attachments in value order, dedicated channel last (send_plan_att_*: 3 attachments, all lengths/buffer sizes); receiving side: <= 2 sockets + 2 regions, 1..3 packets, identity by kernel object, each received endpoint works (recv_att_*); count formula inverts CMSG_LEN (M-query)",
+        outside="end-to-end through one send+recv pair with attachments (harnesses attach_platform_* / attach_ipc_* exist and pass natively, but run out of memory under CBMC); ipc-layer index placement (see C14 ser_* for the serialising half, C16 for the decoding half); > 3 attachments except the counts of C15; hop chains",
+        assumptions=[_A_REC, _A_KQ, _A_INJ]),
+    "C05": dict(
+        bounds="region lengths 1..8 (platform) and 0,3,8 (ipc), contents and fill byte symbolic; 0..2 clones; 2 regions per message in both orders; read after the sender's copies and the channel are gone; regions around a nested send (ser_nested_regions_*)",
+        outside="lengths > 8 (the crate does no page arithmetic: the length flows unchanged into ftruncate/mmap/fstat), forked receivers, memfd build, in-process transport",
+        assumptions=[_A_KQ, "shared memory = one allocation of exactly the region's length, shared by all mappings, freed when the last descriptor and mapping are gone"]),
+    "C09": dict(
+        bounds="receiver dropped / in transit / in transit with the carrier dropped / unpacked, x 3-byte and 57-byte (3-packet) messages, with and without one attachment (dropped case); IpcSender and IpcBytesSender error propagation",
+        outside="process termination by SIGPIPE (model rule 4: not modelled), other threads/processes dropping concurrently, in-process transport",
+        assumptions=[_A_KQ, _A_INJ]),
+    "C10": dict(
+        bounds="call sequences try_recv x4 around send/drop, multi-packet try_recv, try_recv_timeout for EVERY Duration (secs: u64, nanos < 1e9: the poll(2) time-out is floor(ms) or -1 when it does not fit i32), readiness during the wait, blocking mode restored after every call incl. error paths, recv after try_recv reaches the blocking state",
+        outside="real elapsed time; a sender that is mid-message in another thread",
+        assumptions=[_A_KQ, "poll(2) stub: readiness computed from the requested event mask; 'time-out' is a verdict of the stub"]),
+    "C11": dict(
+        bounds="ledger epilogue (nothing open, nothing mapped, no close of a non-open descriptor) in every harness of every property; EMFILE at channel() and at the dedicated channel of a multi-packet send; connect(2) failing; close-on-exec on created, cloned and received descriptors",
+        outside="temp files and the one-shot server (C08), router, /proc views, 10^5 repetitions (a per-operation leak is visible in one operation under the ledger)",
+        assumptions=[_A_KQ, "descriptor numbers are never reused by the model, so a double close is always EBADF"]),
+    "C12": dict(
+        bounds="3-packet message (57 bytes), sender dying after 0,1,2,3 packets got out (the prefixes of the plan send_plan_* establish), with/without one attachment, 0 or 1 surviving sender handle, observed by recv and try_recv; an earlier complete message must survive",
+        outside="death of the receiver; observation through a receiver set / router; shapes of > 3 packets (same loop)",
+        assumptions=[_A_KQ, _A_INJ, "a crash point between two system calls is observable only through the packets already sent: the sender's packet sequence prefix + closing all its descriptors"]),
+    "C13": dict(
+        bounds="every ENOBUFS pattern over the first 8 attempts (symbolic mask), all lengths <= 2^26 and buffer sizes in [4096, 2^24], <= 10 attempts, with and without 3 attachments; M-queries: downsize and the retry steps for all 64-bit values",
+        outside="patterns over attempts 9, 10 and beyond (M-query induction only); byte-exact delivery under ENOBUFS (the receive side accepts every valid plan: rt_bytes_* + window M-queries)",
+        assumptions=[_A_REC]),
+    "C14": dict(
+        bounds="serialisation failing after 0,1,2,3 of (sender, region, sender) were visited, followed by an unrelated send; a complete / a failing send nested inside a Serialize impl between two sender attachments and between two region attachments (depth 2)",
+        outside="depth 3; a receive nested inside Deserialize; OS-level send failures (C09/C11 cover their ledger)",
+        assumptions=[_A_REC, "hook H3 ipc::verif_hooks::serialization_tables_len is used as an additional, stricter observer; the observable consequence (descriptor closed once the program's handles are gone) is asserted too"]),
+    "C15": dict(
+        bounds="sending side: 63/64/65 attachments x {1 byte, 2 packets, 3000 bytes with the first attempt refused}: no header packet with > 64 descriptors, Ok => everything went out, channel usable afterwards; receiving side: 63/64 (+ dedicated) delivered complete, 65 / 64+1 / 66+1 examined for memory safety only; M-query receive_buffer_holds_64",
+        outside="other attachment kinds than sockets (the kind does not enter the count), counts 67..300 (same path as 66)",
+        assumptions=[_A_REC, _A_KQ, _A_INJ]),
+    "C16": dict(
+        bounds="payload <= 12 symbolic bytes of symbolic length (bincode reads are positional: longer inputs add no new library code), <= 2 channel and <= 2 region attachments, 10 expected types incl. endpoints, regions and pairs of them; dropping an undecoded message",
+        outside="payloads of 13..4096 bytes, String targets, > 2 attachments of a kind",
+        assumptions=[_A_KQ, "undecoded messages are built through hook H3 (OpaqueIpcMessage::new) instead of a transport"]),
+    "C18": dict(
+        bounds="CBMC's memory model (pointer validity, object bounds, use after free, double free) over every unsafe block reached by: byte-exact round trips at the boundary lengths, regions of length 0..8 incl. zero-length at the platform level, 63..66 descriptors against the receiver's control buffer, truncated transfers (crash_*); M-queries on CMSG_* arithmetic for up to 2^32 descriptors",
+        outside="AddressSanitizer semantics proper (CBMC's memory model stands in); allocation failure (Kani: malloc never fails); 'every byte written' beyond the byte-exact round trips (-Z uninit-checks ICEs in this Kani)",
+        assumptions=[_A_KQ]),
+}
